@@ -252,6 +252,8 @@ def gen_C19(rng, tier):
             out.append(('mulrecv %d %d %d' % ((s,) + P), 'Point.Mul/fresh-receiver'))
             out.append(('mulalias %d %d %d' % ((s,) + P), 'Point.Mul/receiver=argument'))
         out.append(('pset %d %d' % P, 'Point.Set'))
+        out.append(('psetalias %d %d' % P, 'Point.Set/argument-is-receiver'))
+        out.append(('psetshared %d %d' % P, 'Point.Set/argument-shares-coordinates'))
         out.append(('decompressrecv ' + hexb(compress(P)), 'Point.Decompress/valid'))
         S = rng.randrange(2**256)
         out.append(('sigdecomp ' + hexb(compress(P) + S.to_bytes(32, 'little')), 'Signature.Decompress/valid'))
@@ -381,6 +383,12 @@ def gen_C07(rng, tier):
             for bv in bad:
                 out.append(('poseidon %d 1 %s' % (bv, lst(base)), 'poseidon/bad-initstate'))
                 out.append(('poseidonhs %d %s' % (bv, lst(base)), 'poseidon.HashWithState/bad-initstate'))
+    # error propagation through the signing entry points: messages outside [0, q), in
+    # particular those whose 32-byte little-endian image is a field element again
+    k0 = bytes(range(1, 33))
+    for m in [-1, -5, -Q, -Q + 5, -2**256 + 3, Q, Q + 1, 2 * Q - 1, 2**254, 2**256 - 1, 2**256, 2**256 + 7, 2**256 + Q - 1, 2**256 + Q, 2**300 + 11, 2**1000] + good:
+        out.append(('signp %s %d' % (hexb(k0), m), 'SignPoseidon/' + ('in-field' if 0 <= m < Q else 'msg-out-of-field')))
+        out.append(('signm %s %d' % (hexb(k0), m), 'SignMimc7/' + ('in-field' if 0 <= m < Q else 'msg-out-of-field')))
     for v in bad + good:
         out.append(('infield %d' % v, 'CheckBigIntInField'))
     for n in (0, 1, 30, 31, 32, 62, 63, 100):
@@ -516,6 +524,10 @@ def gen_C05(rng, tier):
         l = [rng.choice(vals + [0]) for _ in range(ln)]
         out.append(('ff asm batchinv ' + lst(l), 'batchinv/len%d%s' % (ln, '/with-zero' if 0 in l else '')))
     out.append(('ff asm batchinv ' + lst([0, 0, 0]), 'batchinv/all-zero'))
+    # zeros at every position class: first, last, middle, runs, alone
+    nz = [v for v in vals if v != 0]
+    for pat in ('0', 'x', '0x', 'x0', '0xx', 'x0x', 'xx0', '00x', 'x00', '0x0', '0xxxx', 'xxxx0', 'x0x0x', '00xx0'):
+        out.append(('ff asm batchinv ' + lst([0 if c == '0' else rng.choice(nz) for c in pat]), 'batchinv/zero-pattern'))
     return out
 
 
@@ -553,6 +565,9 @@ def gen_C09(rng, tier):
     for ln in (0, 1, 2, 3, 7):
         l = [rng.choice(cls) for _ in range(ln)]
         out.append(('ffg batchinv ' + lst(l), 'batchinv/len%d%s' % (ln, '/with-zero' if 0 in l else '')))
+    nzg = [v for v in cls if v != 0]
+    for pat in ('0', 'x', '0x', 'x0', '0xx', 'x0x', 'xx0', '00x', 'x00', '0x0', '000', '0xxxx', 'xxxx0', 'x0x0x', '00xx0'):
+        out.append(('ffg batchinv ' + lst([0 if c == '0' else rng.choice(nzg) for c in pat]), 'batchinv/zero-pattern'))
     return out
 
 
@@ -684,6 +699,10 @@ def gen_C02(rng, tier):
     for m in (Q, Q + 1, -1, 2**256):
         out.append(('signp %s %d' % (hexb(ks[2]), m), 'SignPoseidon/msg-out-of-field'))
         out.append(('signm %s %d' % (hexb(ks[2]), m), 'SignMimc7/msg-out-of-field'))
+    # the derivation routes of the same keys, before and after signing with them
+    for k in ks[:6]:
+        out.insert(rng.randrange(len(out)), ('public %s' % hexb(k), 'Public/same-key-as-signing'))
+        out.append(('public %s' % hexb(k), 'Public/same-key-as-signing'))
     return out
 
 
